@@ -154,6 +154,10 @@ contract(
                               "min_segment_length <= result[1][q][1] - result[1][q][0] and result[1][q][1] - result[1][q][0] <= max_segment_length)",
         "point_lengths": "forall(range(len(result[2])), lambda q: 0 <= result[2][q][0] and result[2][q][1] == result[2][q][0] + 1 and result[2][q][1] <= n)",
         "fitted_on_X": "collective_saving._is_fitted == True and collective_saving.ghost_n == n and point_saving._is_fitted == True and point_saving.ghost_n == n",
+        # re-evaluating the reported anomalies under the same penalties gives exactly the final score (C03)
+        "reevaluation": "CG(collective_saving.ghost_tok, point_saving.ghost_tok, n) == "
+                        "LSUM('coll', result[1], len(result[1]), lambda x: PSC(collective_saving.ghost_tok, x[0], x[1], collective_alpha, ZEROS1())) + "
+                        "LSUM('pt', result[2], len(result[2]), lambda x: PSC(point_saving.ghost_tok, x[0], x[0] + 1, point_alpha, ZEROS1()))",
     },
     props=["C03", "C10", "C04"],
 )
@@ -207,6 +211,12 @@ contract(
                                 "payload(result)[q][0] + self.min_segment_length <= payload(result)[q][1] and payload(result)[q][1] <= n - 1) and "
                                 "forall(range(len(payload(result)) - 1), lambda q: payload(result)[q][1] <= payload(result)[q + 1][0])",
         "fitted_on_X": "self._anomaly_score._is_fitted == True and self._anomaly_score.ghost_n == n",
+        # the scores table (detector.scores) lists, per candidate interval, the score and the inner interval attaining it, in the named columns (C09)
+        "scores_table_lengths": f"len(payload(self.scores)['score']) == len(payload(self.scores)['interval_start']) and len(payload(self.scores)['interval_end']) == len(payload(self.scores)['interval_start'])",
+        "scores_table": f"forall(range(len(payload(self.scores)['interval_start'])), lambda i: implies(payload(self.scores)['score'][i] > 0, exists(range(0, n + 1), range(0, n + 1), lambda a, b: "
+                        f"payload(self.scores)['argmax_anomaly_start'][i] == a and payload(self.scores)['argmax_anomaly_end'][i] == b and "
+                        f"payload(self.scores)['interval_start'][i] < a and a + self.min_segment_length <= b and b < payload(self.scores)['interval_end'][i] and "
+                        f"payload(self.scores)['score'][i] == AGG4(self._anomaly_score.ghost_tok, payload(self.scores)['interval_start'][i], a, b, payload(self.scores)['interval_end'][i]))))",
     },
     props=["C09", "C04", "C10"],
 )
